@@ -238,7 +238,7 @@ PROPS = {
               "yden = H_yden(X,Z) Z^3 and H_k(X,Z) = sum_i k_i X^i Z^(2(n-i)): i.e. X'/Z'^2 = x_num(x)/x_den(x), Y'/Z'^3 = y*y_num(x)/y_den(x) at x = X/Z^2, y = Y/Z^3, "
               "independently of the representative, and Z = 0 or a zero of a denominator gives Z' = 0. Decided by symbolic execution of the real body and polynomial identity, "
               "not by a deductive verifier (Verus could not be given a contract for the three &mut references returned by as_tuple_mut).",
-        not_covered=["the coefficient tables equal the RFC 9380 appendix E constants (not checked)", "the image lies on the target curve; homomorphism law (A9)",
+        not_covered=["the coefficient tables are not compared digit by digit with RFC 9380 appendix E (no copy offline); instead the polynomial identity `image of E' lies on E` is checked exactly over the crate's own tables (a wrong entry breaks it)", "homomorphism law (A9)",
                      "trusted: rustc's semantics of the sliced text, vx/symx_base.rs, vx/ring.py (exact integer polynomial arithmetic)"],
         assumptions=["the field operations used by eval_iso (zero, square, mul_assign, add_assign) are those of a commutative ring (C08/C09 contracts)", "A9"],
     ),
